@@ -5,6 +5,12 @@ import json, subprocess
 HOOK_COMMITS = ["9b212f4"]
 
 CLAIMED = {
+ "C18": dict(level="exploration", technique="round-trip (inverse-function) monitors on values built from components + hostile-input contract monitor on UnmarshalJSON, recover()-guarded",
+   text="Values of the five datetime types are built from known components over a boundary grid and seeded random draws; the real String/ParseTime/MarshalJSON/UnmarshalJSON/.string() and zone conversions are executed and the inverse-function relations and the expected ISO text (computed from the components, not from the library) are asserted on every observed result; UnmarshalJSON is driven with every JSON token kind, short strings and truncated encodings and must never panic.",
+   note="Equality = same Go type, instant and offset. UnmarshalJSON is driven with syntactically valid JSON only; JSON null may be rejected or ignored. Zone data: Go's embedded time/tzdata."),
+ "C20": dict(level="fault_enumeration", technique="fault injection at every evaluation step via a context whose Done/Err flip is driven by the H1 step hook; contract monitor on each cancelled run",
+   text="For every pool case (hand-written, covering each node kind and each consumer of an operand's error) and for generated cases, the uncancelled run is counted in evaluation steps K and the context is then made done at the entry of step k for EVERY k in 0..K, for each entry point, silent/verbose and both causes; each cancelled run must return (no result, error wrapping ErrExecution and the cause, not suppressible) within path-size+2 further steps. Exhaustive over cancellation points of the cases run, not over all paths.",
+   note="The injection clock is the verif-tagged step hook in executeItemOptUnwrapTarget; a cancellation that arrives between two steps is observed at the next step, as in the real code."),
  "C04": dict(level="exploration", technique="runtime contract monitor over hostile/generated inputs (recover(), error-chain assertions, near-miss rejection), crash-isolated worker processes",
    text="Every generated input (prefixes, deletions, token-dictionary mutations, random bytes, huge literals, deep nesting, regex fragments) is fed to the real Parse/MustParse/Scan/UnmarshalText/UnmarshalBinary and the stated contract is asserted on each observed outcome; constructed near-misses of each validity rule must be rejected. Exploration, not proof: it covers the inputs the run produced.",
    note="Trusts Go's recover() to observe panics and the worker-process journal to attribute fatal crashes; hang = one Parse call exceeding 60 s wall-clock; accept/reject asserted only for constructed near-misses."),
